@@ -42,7 +42,7 @@ Obs(t, ids, o, fut, ver, r) ==
    latest   |-> o.latest,
    future   |-> fut, verified |-> ver,
    pending  |-> {ids[i] : i \in {j \in 1..Len(ids) : o.pending[j]}},
-   todo |-> <<>>, res |-> r]
+   todo |-> <<>>, res |-> r, fork |-> <<>>, sub |-> "none"]
 
 Tag(c, t) == IF c THEN <<>> ELSE <<t>>
 
@@ -81,11 +81,30 @@ JudgeDeliver(e) ==
       Tag(obs.pending = exp.pending, "Deliver.pending") \o
       Tag((obs.stateDisk \cap obs.hashDB) = (exp.stateDisk \cap exp.hashDB), "Deliver.stateDisk")
 
+(* fork switch of the sync processor (extension beyond C05's quantifier: the store clauses are
+   judged as for any quiescent point; the weight clause is reported as an Ext. observation) *)
+ForkExp(e) == IF e.a \in ms.hashDB THEN ForkSwitch(tr, ms, PathDown(tr, e.a, e.b)) ELSE ms
+JudgeFork(e) ==
+  LET exp == ForkExp(e)
+      obs == Obs(tr, txIds, e.state, exp.future, exp.verified, "none")
+      removed == Canon(tr, ms) \ Canon(tr, obs)
+  IN  JudgeInv(tr, obs, e.state) \o
+      Tag(NotLower(tr, obs.latest, ms.latest), "Ext.WeightMonotone.fork-path") \o
+      Tag(~e.state.addMark /\ ~e.state.rmMark, "Model.MarksLeft") \o
+      Tag(obs.hashDB = exp.hashDB, "Fork.hashDB") \o
+      Tag(obs.hidx = exp.hidx, "Fork.hidx") \o
+      Tag(obs.latest = exp.latest /\ obs.headRec = exp.headRec, "Fork.head") \o
+      Tag(obs.executed = exp.executed, "Fork.executed") \o
+      Tag((obs.stateDisk \cap obs.hashDB) = (exp.stateDisk \cap exp.hashDB), "Fork.stateDisk")
+
+CallBegin(e) ==      \* the state right after the call started (Crash / Died events)
+  IF e.kind = "F"
+    THEN (IF e.a \in ms.hashDB THEN BeginFork(tr, ms, PathDown(tr, e.a, e.b)) ELSE ms)
+    ELSE Begin(tr, [ms EXCEPT !.pending = @ \cup (TxsOf(tr, e.b) \ ms.executed)], e.b)
+
 CrashStates(e) ==
   IF e.phase = "deliver"
-    THEN LET pre == [ms EXCEPT !.pending = @ \cup (TxsOf(tr, e.b) \ ms.executed)]
-             s0  == Begin(tr, pre, e.b)
-         IN {RunK(tr, s0, j) : j \in 0..StepsToEnd(tr, s0)}
+    THEN LET s0 == CallBegin(e) IN {RunK(tr, s0, j) : j \in 0..StepsToEnd(tr, s0)}
     ELSE UNION { {RunK(tr, CrashState(s), j) : j \in 0..StepsToEnd(tr, CrashState(s))} : s \in pend }
 
 JudgeRestart(e) ==
@@ -100,6 +119,7 @@ JudgeRestart(e) ==
 
 Judge(e) ==
   CASE e.event = "Deliver" -> JudgeDeliver(e)
+    [] e.event = "Fork" -> JudgeFork(e)
     [] e.event = "Restart" -> JudgeRestart(e)
     [] e.event = "RestartFailed" -> <<"Inv.NodeCannotRestart">>   \* chain initialisation died over these stores
     [] e.event = "Died" -> <<"Model.NodeDiedOnItsOwn">>            \* not a planned crash: the code panicked
@@ -122,11 +142,13 @@ TraceNext ==
                      exp == Deliver(tr, pre, e.b)
                  IN /\ ms' = Obs(tr, txIds, e.state, exp.future, exp.verified, e.res)
                     /\ UNCHANGED <<tr, txIds, pend, cheads>>
+            [] e.event = "Fork" ->
+                 LET exp == ForkExp(e) IN
+                 /\ ms' = Obs(tr, txIds, e.state, exp.future, exp.verified, "none")
+                 /\ UNCHANGED <<tr, txIds, pend, cheads>>
             [] e.event \in {"Crash", "Died"} ->
                  /\ pend' = CrashStates(e)
-                 /\ cheads' = IF e.phase = "deliver"
-                                THEN HeadsOfCall(tr, Begin(tr, [ms EXCEPT !.pending = @ \cup (TxsOf(tr, e.b) \ ms.executed)], e.b))
-                                ELSE cheads
+                 /\ cheads' = IF e.phase = "deliver" THEN HeadsOfCall(tr, CallBegin(e)) ELSE cheads
                  /\ UNCHANGED <<tr, txIds, ms>>
             [] e.event = "Restart" ->
                  /\ ms' = Obs(tr, txIds, e.state, [i \in Ids0(tr) |-> None], {}, "none")
